@@ -488,6 +488,9 @@ def build_test(prog, w, nm, shape, infoA, events, blocked=True):
                 if isinstance(q_, tuple) and q_ and q_[0] == 'PREFILLED':
                     lines.append(f"    prep(&mut w, AMQPFrame::Method({nm.i(info['id'])}, AMQPClass::Basic(basic::AMQPMethod::QosOk(basic::QosOk {{}}))));")
     lines.append("    ready(&mut w);")
+    if nm.b(sym('sealed0', z3.BoolSort())):
+        # harnesses with a symbolic initial seal name it sealed0: the client's own Close is queued, its CloseOk still to come
+        lines.append("    w.inner.seal_writes();")
     for ev in events:
         if ev[0] == 'frame':
             fr = rust_frame(prog, ev[1], nm)
